@@ -49,10 +49,33 @@ fn main() {
     let child = std::thread::Builder::new()
         .stack_size(1 << 30)
         .spawn(move || {
-            if mode == "fuzz-replay" || mode == "fuzz-random" {
+            if mode == "fuzz-replay" || mode == "fuzz-random" || mode == "fuzz-corpus" {
                 // decision-tape cases outside libFuzzer: replay of recorded tapes, or N random tapes
-                let mut fs = pvmon::fuzz::FuzzSession::new(&prop, &log, None, seed);
-                if mode == "fuzz-replay" {
+                let mut fs = pvmon::fuzz::FuzzSession::new_with_marker(&prop, &log, marker.clone(), None, seed);
+                if mode == "fuzz-corpus" {
+                    // packed corpus of decision tapes distilled by earlier coverage-guided runs
+                    // (harness/fuzz/seeds/<PROP>.tapes: [u32 LE length][bytes]...), sharded by index
+                    let mut n = 0u64;
+                    for t in tapes.iter() {
+                        let data = std::fs::read(t).unwrap_or_default();
+                        let mut pos = 0usize;
+                        while pos + 4 <= data.len() {
+                            let len = u32::from_le_bytes([data[pos], data[pos + 1], data[pos + 2], data[pos + 3]]) as usize;
+                            pos += 4;
+                            if pos + len > data.len() {
+                                break;
+                            }
+                            if n >= start && (n % nshards as u64) as usize == shard {
+                                fs.ctx.rec.marker_case_override = Some(n);
+                                fs.ctx.rec.case_marker(n, "corpus tape");
+                                fs.one(&data[pos..pos + len]);
+                                fs.ctx.rec.count("corpus_tapes", 1);
+                            }
+                            pos += len;
+                            n += 1;
+                        }
+                    }
+                } else if mode == "fuzz-replay" {
                     for t in tapes.iter() {
                         match std::fs::read(t) {
                             Ok(data) => {
